@@ -1,4 +1,5 @@
 import UmProofs.MigrationStepH
+import UmProofs.MigrationStepI
 import UmProofs.MigrationIds
 import UmProofs.MigrationStepA
 /-! C03: every good step preserves `MigInv` and is a `RegisterStep`; induction over executions. -/
@@ -204,6 +205,22 @@ theorem inv_step {s s' : Sys} {l : Label} (h : MigInv s) (hgood : GoodStep s l) 
     | D =>
       obtain ⟨⟨g, o⟩, hl⟩ := step_handshake hG hO (Or.inr (Or.inr (Or.inr (Or.inr ⟨rfl, hgood rfl⟩)))) hs
       exact ⟨⟨g, o, wf_of_ids hW (by simp only [step?] at hs; exact ids_guard hs rfl)⟩, hl⟩
+  | syncFault b =>
+    have hids : ids s' = ids s := by
+      simp only [step?] at hs
+      split at hs
+      · exact ids_guard hs rfl
+      · exact ids_guard hs rfl
+      · cases hs; cases b <;> rfl
+      · simp at hs
+    obtain ⟨⟨g, o⟩, hl⟩ := step_syncFault hG hO hs
+    exact ⟨⟨g, o, wf_of_ids hW hids⟩, hl⟩
+  | scanFault =>
+    have hids : ids s' = ids s := by
+      simp only [step?] at hs
+      (repeat' split at hs) <;> first | (simp at hs; done) | (cases hs; rfl)
+    obtain ⟨⟨g, o⟩, hl⟩ := step_scanFault hG hO hs
+    exact ⟨⟨g, o, wf_of_ids hW hids⟩, hl⟩
   | tau t =>
     have hids := ids_stepTau (show stepTau s t = some s' from hs)
     have hW' := wf_of_ids hW hids
